@@ -340,11 +340,25 @@ pub fn install_stubs() {
                     }
                 })
                 .unwrap_or(false);
-            if !in_program {
+            // (a panic inside `guarded` is an expected outcome of the code under comparison - the SDK, an accessor - and is
+            // turned into a value by the caller)
+            if !in_program && GUARDED.with(|g| g.get()) == 0 {
                 eprintln!("HARNESS PANIC: {} @ {}", msg, loc);
             }
         }));
     });
+}
+
+thread_local! {
+    static GUARDED: std::cell::Cell<u32> = const { std::cell::Cell::new(0) };
+}
+
+/// run code whose panic is an outcome to be judged (not a harness failure): the panic hook stays silent meanwhile
+pub fn guarded<T>(f: impl FnOnce() -> T) -> std::thread::Result<T> {
+    GUARDED.with(|g| g.set(g.get() + 1));
+    let r = std::panic::catch_unwind(std::panic::AssertUnwindSafe(f));
+    GUARDED.with(|g| g.set(g.get() - 1));
+    r
 }
 
 // seams of the vendored crates ---------------------------------------------------------------
